@@ -65,246 +65,256 @@ func collectCallOrder(pr *Prog, facts map[string]interface{}) *leanFile {
 	lf := newLean("CallOrder", "Source order of distinguished events in selected functions: (event, line) in source order, and the booleans the Tie theorems pin.")
 	age := pr.pkgRel("")
 	stream := pr.pkgRel("internal/stream")
+	var evs []event
+	var rows [][]interface{}
 
 	// ---- the scrypt unwrap: syntax check, Atoi, work-factor bound, then the KDF ----
-	// role: the function of package age that calls both strconv.Atoi and scrypt.Key
-	var su *FuncInfo
-	for _, fi := range pr.All {
-		if fi.Pkg == age && len(callsTo(fi, "strconv", "Atoi")) > 0 && len(callsTo(fi, "golang.org/x/crypto/scrypt", "Key")) > 0 {
-			su = fi
-		}
-	}
-	if su == nil {
-		su = pr.methodOn("", "ScryptIdentity", "unwrap")
-	}
-	if su == nil {
-		missing("the scrypt stanza unwrap function (calls strconv.Atoi and scrypt.Key in package age, or (*ScryptIdentity).unwrap)")
-	}
-	var evs []event
-	var atoiVar types.Object
-	for _, c := range callsIn(su) {
-		obj := age.callee(c)
-		switch {
-		case isFuncOf(obj, "strconv", "Atoi"):
-			evs = append(evs, event{"strconv.Atoi", c.Pos()})
-		case isFuncOf(obj, "golang.org/x/crypto/scrypt", "Key"):
-			evs = append(evs, event{"scrypt.Key", c.Pos()})
-		default:
-			if f, ok := obj.(*types.Func); ok && f.Pkg() != nil && f.Pkg().Path() == "regexp" && (f.Name() == "MatchString" || f.Name() == "Match") {
-				evs = append(evs, event{"regexp.MatchString", c.Pos()})
+	lf.section("the scrypt unwrap: syntax check, Atoi, work-factor bound, then the KDF", func() {
+		// role: the function of package age that calls both strconv.Atoi and scrypt.Key
+		var su *FuncInfo
+		for _, fi := range pr.All {
+			if fi.Pkg == age && len(callsTo(fi, "strconv", "Atoi")) > 0 && len(callsTo(fi, "golang.org/x/crypto/scrypt", "Key")) > 0 {
+				su = fi
 			}
 		}
-	}
-	// the variable that receives the Atoi result
-	ast.Inspect(su.Decl.Body, func(n ast.Node) bool {
-		as, ok := n.(*ast.AssignStmt)
-		if !ok || len(as.Rhs) != 1 || len(as.Lhs) < 1 {
-			return true
+		if su == nil {
+			su = pr.methodOn("", "ScryptIdentity", "unwrap")
 		}
-		if c, ok := as.Rhs[0].(*ast.CallExpr); ok && isFuncOf(age.callee(c), "strconv", "Atoi") {
-			if id, ok := as.Lhs[0].(*ast.Ident); ok {
-				if o := age.Info.Defs[id]; o != nil {
-					atoiVar = o
-				} else {
-					atoiVar = age.Info.Uses[id]
+		if su == nil {
+			missing("the scrypt stanza unwrap function (calls strconv.Atoi and scrypt.Key in package age, or (*ScryptIdentity).unwrap)")
+		}
+		evs = nil
+		var atoiVar types.Object
+		for _, c := range callsIn(su) {
+			obj := age.callee(c)
+			switch {
+			case isFuncOf(obj, "strconv", "Atoi"):
+				evs = append(evs, event{"strconv.Atoi", c.Pos()})
+			case isFuncOf(obj, "golang.org/x/crypto/scrypt", "Key"):
+				evs = append(evs, event{"scrypt.Key", c.Pos()})
+			default:
+				if f, ok := obj.(*types.Func); ok && f.Pkg() != nil && f.Pkg().Path() == "regexp" && (f.Name() == "MatchString" || f.Name() == "Match") {
+					evs = append(evs, event{"regexp.MatchString", c.Pos()})
 				}
 			}
 		}
-		return true
-	})
-	// role: the comparison `parsed > recv.field` whose if-body returns an error
-	maxField := ""
-	ast.Inspect(su.Decl.Body, func(n ast.Node) bool {
-		is, ok := n.(*ast.IfStmt)
-		if !ok {
+		// the variable that receives the Atoi result
+		ast.Inspect(su.Decl.Body, func(n ast.Node) bool {
+			as, ok := n.(*ast.AssignStmt)
+			if !ok || len(as.Rhs) != 1 || len(as.Lhs) < 1 {
+				return true
+			}
+			if c, ok := as.Rhs[0].(*ast.CallExpr); ok && isFuncOf(age.callee(c), "strconv", "Atoi") {
+				if id, ok := as.Lhs[0].(*ast.Ident); ok {
+					if o := age.Info.Defs[id]; o != nil {
+						atoiVar = o
+					} else {
+						atoiVar = age.Info.Uses[id]
+					}
+				}
+			}
 			return true
-		}
-		be, ok := ast.Unparen(is.Cond).(*ast.BinaryExpr)
-		if !ok || !returnsError(age, is.Body) {
-			return true
-		}
-		var v ast.Expr
-		var sel *ast.SelectorExpr
-		switch be.Op {
-		case token.GTR, token.GEQ:
-			v = be.X
-			sel, _ = be.Y.(*ast.SelectorExpr)
-		case token.LSS, token.LEQ:
-			v = be.Y
-			sel, _ = be.X.(*ast.SelectorExpr)
-		default:
-			return true
-		}
-		id, ok := v.(*ast.Ident)
-		if !ok || sel == nil || atoiVar == nil || age.Info.Uses[id] != atoiVar {
-			return true
-		}
-		if s, ok := age.Info.Selections[sel]; ok && s.Kind() == types.FieldVal {
-			maxField = sel.Sel.Name
-			evs = append(evs, event{"compare work factor with receiver field", be.Pos()})
-		}
-		return true
-	})
-	rows := eventRows(pr, evs)
-	lf.comment("scrypt stanza unwrap")
-	lf.str("scryptUnwrapFunction", su.Qual())
-	lf.str("scryptMaxWorkFactorField", maxField)
-	lf.tuples("scryptUnwrapOrder", "String × Nat", rows)
-	reP, ok1 := firstPos(evs, "regexp.MatchString")
-	atP, ok2 := firstPos(evs, "strconv.Atoi")
-	cmP, ok3 := firstPos(evs, "compare work factor with receiver field")
-	kdP, ok4 := firstPos(evs, "scrypt.Key")
-	nKdf := 0
-	for _, e := range evs {
-		if e.name == "scrypt.Key" {
-			nKdf++
-		}
-	}
-	lf.comment("the syntax check, the integer conversion and the bound test all precede the (only) scrypt.Key call")
-	lf.boolean("scryptChecksPrecedeKdf", ok1 && ok2 && ok3 && ok4 && nKdf == 1 && reP < atP && atP < cmP && cmP < kdP)
-	facts["order.scryptUnwrapOrder"] = rows
-	lf.blank()
-
-	// ---- Encrypt: every recipient wrapped and the label sets compared before anything reaches dst ----
-	enc := pr.mustFn("", "Encrypt")
-	sig := enc.Obj.Type().(*types.Signature)
-	if sig.Params().Len() < 1 {
-		missing("age.Encrypt no longer has a destination parameter")
-	}
-	dst := sig.Params().At(0)
-	evs = nil
-	var wrapLoopEnd token.Pos
-	// role: the wrap helper is the in-module function called in Encrypt that returns labels ([]string among its results)
-	ast.Inspect(enc.Decl.Body, func(n ast.Node) bool {
-		switch x := n.(type) {
-		case *ast.CallExpr:
-			f, ok := age.callee(x).(*types.Func)
+		})
+		// role: the comparison `parsed > recv.field` whose if-body returns an error
+		maxField := ""
+		ast.Inspect(su.Decl.Body, func(n ast.Node) bool {
+			is, ok := n.(*ast.IfStmt)
 			if !ok {
 				return true
 			}
-			fsig := f.Type().(*types.Signature)
-			if pr.Funcs[f] != nil {
-				if returnsStrings(fsig) {
-					evs = append(evs, event{"wrap recipient (with labels)", x.Pos()})
+			be, ok := ast.Unparen(is.Cond).(*ast.BinaryExpr)
+			if !ok || !returnsError(age, is.Body) {
+				return true
+			}
+			var v ast.Expr
+			var sel *ast.SelectorExpr
+			switch be.Op {
+			case token.GTR, token.GEQ:
+				v = be.X
+				sel, _ = be.Y.(*ast.SelectorExpr)
+			case token.LSS, token.LEQ:
+				v = be.Y
+				sel, _ = be.X.(*ast.SelectorExpr)
+			default:
+				return true
+			}
+			id, ok := v.(*ast.Ident)
+			if !ok || sel == nil || atoiVar == nil || age.Info.Uses[id] != atoiVar {
+				return true
+			}
+			if s, ok := age.Info.Selections[sel]; ok && s.Kind() == types.FieldVal {
+				maxField = sel.Sel.Name
+				evs = append(evs, event{"compare work factor with receiver field", be.Pos()})
+			}
+			return true
+		})
+		rows = eventRows(pr, evs)
+		lf.comment("scrypt stanza unwrap")
+		lf.str("scryptUnwrapFunction", su.Qual())
+		lf.str("scryptMaxWorkFactorField", maxField)
+		lf.tuples("scryptUnwrapOrder", "String × Nat", rows)
+		reP, ok1 := firstPos(evs, "regexp.MatchString")
+		atP, ok2 := firstPos(evs, "strconv.Atoi")
+		cmP, ok3 := firstPos(evs, "compare work factor with receiver field")
+		kdP, ok4 := firstPos(evs, "scrypt.Key")
+		nKdf := 0
+		for _, e := range evs {
+			if e.name == "scrypt.Key" {
+				nKdf++
+			}
+		}
+		lf.comment("the syntax check, the integer conversion and the bound test all precede the (only) scrypt.Key call")
+		lf.boolean("scryptChecksPrecedeKdf", ok1 && ok2 && ok3 && ok4 && nKdf == 1 && reP < atP && atP < cmP && cmP < kdP)
+		facts["order.scryptUnwrapOrder"] = rows
+		lf.blank()
+
+	})
+	// ---- Encrypt: every recipient wrapped and the label sets compared before anything reaches dst ----
+	lf.section("Encrypt: every recipient wrapped and the label sets compared before anything reaches dst", func() {
+		enc := pr.mustFn("", "Encrypt")
+		sig := enc.Obj.Type().(*types.Signature)
+		if sig.Params().Len() < 1 {
+			missing("age.Encrypt no longer has a destination parameter")
+		}
+		dst := sig.Params().At(0)
+		evs = nil
+		var wrapLoopEnd token.Pos
+		// role: the wrap helper is the in-module function called in Encrypt that returns labels ([]string among its results)
+		ast.Inspect(enc.Decl.Body, func(n ast.Node) bool {
+			switch x := n.(type) {
+			case *ast.CallExpr:
+				f, ok := age.callee(x).(*types.Func)
+				if !ok {
+					return true
 				}
-				if fsig.Results().Len() == 1 && isBool(fsig.Results().At(0).Type()) && fsig.Params().Len() == 2 && isStrings(fsig.Params().At(0).Type()) {
-					evs = append(evs, event{"compare label sets", x.Pos()})
-				}
-			}
-			if fsig.Recv() != nil && types.IsInterface(fsig.Recv().Type()) && (f.Name() == "Wrap" || f.Name() == "WrapWithLabels") {
-				evs = append(evs, event{"wrap recipient (with labels)", x.Pos()})
-			}
-		case *ast.Ident:
-			if age.Info.Uses[x] == dst {
-				evs = append(evs, event{"use of dst", x.Pos()})
-			}
-		case *ast.RangeStmt:
-			// the loop over the recipients
-			inner := false
-			ast.Inspect(x.Body, func(m ast.Node) bool {
-				if c, ok := m.(*ast.CallExpr); ok {
-					if f, ok := age.callee(c).(*types.Func); ok && pr.Funcs[f] != nil && returnsStrings(f.Type().(*types.Signature)) {
-						inner = true
+				fsig := f.Type().(*types.Signature)
+				if pr.Funcs[f] != nil {
+					if returnsStrings(fsig) {
+						evs = append(evs, event{"wrap recipient (with labels)", x.Pos()})
+					}
+					if fsig.Results().Len() == 1 && isBool(fsig.Results().At(0).Type()) && fsig.Params().Len() == 2 && isStrings(fsig.Params().At(0).Type()) {
+						evs = append(evs, event{"compare label sets", x.Pos()})
 					}
 				}
-				return true
-			})
-			if inner {
-				wrapLoopEnd = x.End()
+				if fsig.Recv() != nil && types.IsInterface(fsig.Recv().Type()) && (f.Name() == "Wrap" || f.Name() == "WrapWithLabels") {
+					evs = append(evs, event{"wrap recipient (with labels)", x.Pos()})
+				}
+			case *ast.Ident:
+				if age.Info.Uses[x] == dst {
+					evs = append(evs, event{"use of dst", x.Pos()})
+				}
+			case *ast.RangeStmt:
+				// the loop over the recipients
+				inner := false
+				ast.Inspect(x.Body, func(m ast.Node) bool {
+					if c, ok := m.(*ast.CallExpr); ok {
+						if f, ok := age.callee(c).(*types.Func); ok && pr.Funcs[f] != nil && returnsStrings(f.Type().(*types.Signature)) {
+							inner = true
+						}
+					}
+					return true
+				})
+				if inner {
+					wrapLoopEnd = x.End()
+				}
 			}
-		}
-		return true
-	})
-	rows = eventRows(pr, evs)
-	lf.comment("age.Encrypt")
-	lf.tuples("encryptOrder", "String × Nat", rows)
-	wP, okW := lastPos(evs, "wrap recipient (with labels)")
-	cP, okC := lastPos(evs, "compare label sets")
-	dP, okD := firstPos(evs, "use of dst")
-	lf.comment("the last wrap and the label comparison lie inside the recipients loop, which ends before dst is first used")
-	lf.boolean("labelCheckPrecedesFirstWrite", okW && okC && okD && wrapLoopEnd.IsValid() && wP < wrapLoopEnd && cP < wrapLoopEnd && wrapLoopEnd <= dP)
-	facts["order.encryptOrder"] = rows
-	lf.blank()
+			return true
+		})
+		rows = eventRows(pr, evs)
+		lf.comment("age.Encrypt")
+		lf.tuples("encryptOrder", "String × Nat", rows)
+		wP, okW := lastPos(evs, "wrap recipient (with labels)")
+		cP, okC := lastPos(evs, "compare label sets")
+		dP, okD := firstPos(evs, "use of dst")
+		lf.comment("the last wrap and the label comparison lie inside the recipients loop, which ends before dst is first used")
+		lf.boolean("labelCheckPrecedesFirstWrite", okW && okC && okD && wrapLoopEnd.IsValid() && wP < wrapLoopEnd && cP < wrapLoopEnd && wrapLoopEnd <= dP)
+		facts["order.encryptOrder"] = rows
+		lf.blank()
 
+	})
 	// ---- Decrypt: the header MAC is compared before a payload reader exists ----
-	dec := pr.mustFn("", "Decrypt")
-	evs = nil
-	macGuarded := false
-	for _, c := range callsIn(dec) {
-		obj := age.callee(c)
-		switch {
-		case isFuncOf(obj, "crypto/hmac", "Equal"), isFuncOf(obj, "crypto/subtle", "ConstantTimeCompare"):
-			evs = append(evs, event{"hmac.Equal", c.Pos()})
-		case isFuncOf(obj, stream.Path, "NewReader"):
-			evs = append(evs, event{"stream.NewReader", c.Pos()})
+	lf.section("Decrypt: the header MAC is compared before a payload reader exists", func() {
+		dec := pr.mustFn("", "Decrypt")
+		evs = nil
+		macGuarded := false
+		for _, c := range callsIn(dec) {
+			obj := age.callee(c)
+			switch {
+			case isFuncOf(obj, "crypto/hmac", "Equal"), isFuncOf(obj, "crypto/subtle", "ConstantTimeCompare"):
+				evs = append(evs, event{"hmac.Equal", c.Pos()})
+			case isFuncOf(obj, stream.Path, "NewReader"):
+				evs = append(evs, event{"stream.NewReader", c.Pos()})
+			}
 		}
-	}
-	// the comparison must guard an error return: `if … !hmac.Equal(…) { return nil, err }`
-	ast.Inspect(dec.Decl.Body, func(n ast.Node) bool {
-		is, ok := n.(*ast.IfStmt)
-		if !ok {
+		// the comparison must guard an error return: `if … !hmac.Equal(…) { return nil, err }`
+		ast.Inspect(dec.Decl.Body, func(n ast.Node) bool {
+			is, ok := n.(*ast.IfStmt)
+			if !ok {
+				return true
+			}
+			un, ok := ast.Unparen(is.Cond).(*ast.UnaryExpr)
+			if !ok || un.Op != token.NOT {
+				return true
+			}
+			if c, ok := ast.Unparen(un.X).(*ast.CallExpr); ok && isFuncOf(age.callee(c), "crypto/hmac", "Equal") && returnsError(age, is.Body) {
+				macGuarded = true
+			}
 			return true
-		}
-		un, ok := ast.Unparen(is.Cond).(*ast.UnaryExpr)
-		if !ok || un.Op != token.NOT {
-			return true
-		}
-		if c, ok := ast.Unparen(un.X).(*ast.CallExpr); ok && isFuncOf(age.callee(c), "crypto/hmac", "Equal") && returnsError(age, is.Body) {
-			macGuarded = true
-		}
-		return true
-	})
-	rows = eventRows(pr, evs)
-	lf.comment("age.Decrypt")
-	lf.tuples("decryptOrder", "String × Nat", rows)
-	mP, okM := lastPos(evs, "hmac.Equal")
-	rP, okR := firstPos(evs, "stream.NewReader")
-	lf.comment("`!hmac.Equal(…)` guards an error return and precedes the first stream.NewReader")
-	lf.boolean("macCheckPrecedesReader", okM && okR && macGuarded && mP < rP)
-	facts["order.decryptOrder"] = rows
-	lf.blank()
+		})
+		rows = eventRows(pr, evs)
+		lf.comment("age.Decrypt")
+		lf.tuples("decryptOrder", "String × Nat", rows)
+		mP, okM := lastPos(evs, "hmac.Equal")
+		rP, okR := firstPos(evs, "stream.NewReader")
+		lf.comment("`!hmac.Equal(…)` guards an error return and precedes the first stream.NewReader")
+		lf.boolean("macCheckPrecedesReader", okM && okR && macGuarded && mP < rP)
+		facts["order.decryptOrder"] = rows
+		lf.blank()
 
-	// ---- cmd/age decrypt: age.Decrypt returns before the output is first touched ----
-	cmd := pr.pkgRel("cmd/age")
-	// role: the function of cmd/age that calls age.Decrypt and has an io.Writer parameter
-	var cd *FuncInfo
-	var outVar *types.Var
-	for _, fi := range pr.All {
-		if fi.Pkg != cmd || len(callsTo(fi, age.Path, "Decrypt")) == 0 {
-			continue
-		}
-		csig := fi.Obj.Type().(*types.Signature)
-		for i := 0; i < csig.Params().Len(); i++ {
-			if t, ok := csig.Params().At(i).Type().(*types.Named); ok && t.Obj().Pkg() != nil && t.Obj().Pkg().Path() == "io" && t.Obj().Name() == "Writer" {
-				cd, outVar = fi, csig.Params().At(i)
-			}
-		}
-	}
-	if cd == nil {
-		missing("the function of cmd/age that calls age.Decrypt and has an io.Writer parameter")
-	}
-	evs = nil
-	ast.Inspect(cd.Decl.Body, func(n ast.Node) bool {
-		switch x := n.(type) {
-		case *ast.CallExpr:
-			if isFuncOf(cmd.callee(x), age.Path, "Decrypt") {
-				evs = append(evs, event{"age.Decrypt", x.Pos()})
-			}
-		case *ast.Ident:
-			if cmd.Info.Uses[x] == outVar {
-				evs = append(evs, event{"use of the output writer", x.Pos()})
-			}
-		}
-		return true
 	})
-	rows = eventRows(pr, evs)
-	lf.comment("cmd/age: the function that calls age.Decrypt")
-	lf.str("cmdDecryptFunction", cd.Qual())
-	lf.tuples("cmdDecryptOrder", "String × Nat", rows)
-	aP, okA := lastPos(evs, "age.Decrypt")
-	oP, okO := firstPos(evs, "use of the output writer")
-	lf.boolean("decryptPrecedesFirstWrite", okA && okO && aP < oP)
-	facts["order.cmdDecryptOrder"] = rows
+	// ---- cmd/age decrypt: age.Decrypt returns before the output is first touched ----
+	lf.section("cmd/age decrypt: age.Decrypt returns before the output is first touched", func() {
+		cmd := pr.pkgRel("cmd/age")
+		// role: the function of cmd/age that calls age.Decrypt and has an io.Writer parameter
+		var cd *FuncInfo
+		var outVar *types.Var
+		for _, fi := range pr.All {
+			if fi.Pkg != cmd || len(callsTo(fi, age.Path, "Decrypt")) == 0 {
+				continue
+			}
+			csig := fi.Obj.Type().(*types.Signature)
+			for i := 0; i < csig.Params().Len(); i++ {
+				if t, ok := csig.Params().At(i).Type().(*types.Named); ok && t.Obj().Pkg() != nil && t.Obj().Pkg().Path() == "io" && t.Obj().Name() == "Writer" {
+					cd, outVar = fi, csig.Params().At(i)
+				}
+			}
+		}
+		if cd == nil {
+			missing("the function of cmd/age that calls age.Decrypt and has an io.Writer parameter")
+		}
+		evs = nil
+		ast.Inspect(cd.Decl.Body, func(n ast.Node) bool {
+			switch x := n.(type) {
+			case *ast.CallExpr:
+				if isFuncOf(cmd.callee(x), age.Path, "Decrypt") {
+					evs = append(evs, event{"age.Decrypt", x.Pos()})
+				}
+			case *ast.Ident:
+				if cmd.Info.Uses[x] == outVar {
+					evs = append(evs, event{"use of the output writer", x.Pos()})
+				}
+			}
+			return true
+		})
+		rows = eventRows(pr, evs)
+		lf.comment("cmd/age: the function that calls age.Decrypt")
+		lf.str("cmdDecryptFunction", cd.Qual())
+		lf.tuples("cmdDecryptOrder", "String × Nat", rows)
+		aP, okA := lastPos(evs, "age.Decrypt")
+		oP, okO := firstPos(evs, "use of the output writer")
+		lf.boolean("decryptPrecedesFirstWrite", okA && okO && aP < oP)
+		facts["order.cmdDecryptOrder"] = rows
+	})
 	return lf
 }
 
